@@ -48,7 +48,62 @@ fn factorial(n: usize) -> usize {
     (1..=n).product::<usize>().max(1)
 }
 
+/// A program that shares every name with `src` but not its structure: in each record / variant declaration the first
+/// field (case) moves to the end, so every positional index derived from a name differs between the two.
+pub fn sibling(src: &str) -> Option<String> {
+    let lines: Vec<&str> = src.lines().collect();
+    let mut out: Vec<String> = vec![];
+    let mut i = 0;
+    let mut changed = false;
+    while i < lines.len() {
+        let l = lines[i];
+        if l.trim_start().starts_with("type ") && l.trim_end().ends_with('{') && !l.contains('=') {
+            // top-level declaration: collect its members at nesting depth 1 (a member may span several lines)
+            out.push(l.to_string());
+            let mut members: Vec<Vec<String>> = vec![];
+            let mut depth = 1i32;
+            let mut cur: Vec<String> = vec![];
+            i += 1;
+            while i < lines.len() {
+                let m = lines[i];
+                let opens = m.matches('{').count() as i32;
+                let closes = m.matches('}').count() as i32;
+                if depth == 1 && m.trim() == "}" {
+                    break;
+                }
+                cur.push(m.to_string());
+                depth += opens - closes;
+                if depth == 1 {
+                    members.push(std::mem::take(&mut cur));
+                }
+                i += 1;
+            }
+            if members.len() >= 2 {
+                members.rotate_left(1);
+                changed = true;
+            }
+            for m in members {
+                out.extend(m);
+            }
+            continue;
+        }
+        out.push(l.to_string());
+        i += 1;
+    }
+    changed.then(|| out.join("\n") + "\n")
+}
+
 fn judge(src: &str, with_cli: bool, o: &mut Outcome, detail: &Value) {
+    // history of the thread: a program with the same names and another structure was lowered and encoded just before
+    // (nothing learnt about one program may be applied to the next)
+    if let Some(other) = sibling(src) {
+        if let Ok(Ok(t)) = panics::catch(|| lower_source(&other)) {
+            for tx in t.values() {
+                let _ = to_bytes(tx);
+            }
+            o.class("lowered-after-a-sibling-program");
+        }
+    }
     let first = match panics::catch(|| lower_source(src)) {
         Ok(Ok(t)) => t,
         _ => {
@@ -173,6 +228,9 @@ fn judge_profiles(src: &str, o: &mut Outcome, detail: &Value) {
         "--profile", "local",
         "--profile", "staging",
         "--profile", "mainnet",
+        // names that differ only in case, one with an env file and one forced
+        "--profile", "Preview",
+        "--profile-env-file", &format!("STAGING:{over}"),
     ]
     .iter()
     .map(|s| s.to_string())
@@ -242,10 +300,10 @@ impl Prop for C18 {
         }
         let mut gen = |c: &mut crate::engine::dbx::Chooser| super::c17::gen_program_pub(c);
         crate::engine::dbx::explore(if tier.is_thorough() { 2 } else { 1 }, &mut gen, &mut |choices, _d, src| {
-            sink.case(|| json!({"kind": "spelling", "choices": choices, "src": src, "cli": tier.is_thorough()}));
+            sink.case(|| json!({"kind": "spelling", "choices": choices, "src": src, "cli": true}));
         });
         for src in crate::gen::prog::distinct_sources(if tier.is_thorough() { 3 } else { 2 }) {
-            sink.case(|| json!({"kind": "generator", "src": src, "cli": tier.is_thorough()}));
+            sink.case(|| json!({"kind": "generator", "src": src, "cli": true}));
         }
     }
     fn run(&self, case: &Value) -> Outcome {
